@@ -6,7 +6,7 @@
    on every run).  Outcomes: DOk / DErr / DPanic (todo!, index, over-wide shift) / DUnbounded
    (a loop whose length is not bounded by the input).  The float conversions of the host are
    parameters; nothing here depends on them. *)
-From PV Require Import Base MachineInt VarintParams GenLoops Varint DataModel Schema SchemaConv Dyn JsonOf WireFormat VarintFacts DynFacts DynReenc DynArmDecl GenDynArms DynArms DynArmFacts DynArmTotal.
+From PV Require Import Base MachineInt VarintParams GenLoops Varint DataModel Schema SchemaConv Dyn JsonOf WireFormat VarintFacts DynFacts DynReenc DynArmDecl GenDynArms DynArms DynCompositeExpected GenDynComposite DynArmFacts DynArmTotal.
 Open Scope N_scope.
 
 (* decoding never panics, whatever the schema, whatever the bytes; what it hands on to the
@@ -92,6 +92,14 @@ Theorem C18_decoder_arms_are_the_model : forall widen p bs,
   end.
 Proof. exact de_prim_is_source. Qed.
 
+(* the non-scalar arms of both walks (strings, chars, byte arrays, options, sequences, tuples,
+   maps, structs, enums, pointer-sized integers, the schema kind) are, token for token up to
+   renaming of locals, the code the hand model Dyn.v was written from
+   (tools/dyn_arm_templates.json), with the same error kinds and tag bytes at the holes *)
+Theorem C18_composite_arms_are_the_source :
+  dyn_ser_composite_holes = dyn_ser_composite_expected /\ dyn_de_composite_holes = dyn_de_composite_expected.
+Proof. exact dyn_composite_is_source. Qed.
+
 Print Assumptions C18_decode_total.
 Print Assumptions C18_encode_total.
 Print Assumptions C18_private_reader.
@@ -99,3 +107,4 @@ Print Assumptions C18_reencode.
 Print Assumptions C18_encoder_arms_never_panic.
 Print Assumptions C18_decoder_arms_never_panic.
 Print Assumptions C18_decoder_arms_are_the_model.
+Print Assumptions C18_composite_arms_are_the_source.
